@@ -127,6 +127,20 @@ def walk_report(e, out, rule):
 
 def check_doc(ctx, rng, doc, sname):
     text, pos, kinds = ser.STYLES[sname](doc, rng)
+    # transport variants of the same text: CRLF line ends, leading blank lines, tab-indented JSON (positions shift accordingly)
+    tr = rng.choice(["", "", "", "+crlf", "+lead-blank", "+tabs"])
+    if tr == "+crlf":
+        text = text.replace("\n", "\r\n")
+    elif tr == "+lead-blank":
+        k = rng.randint(1, 3)
+        text = "\n" * k + text
+        pos = {p_: (l + k, c) for p_, (l, c) in pos.items()}
+    elif tr == "+tabs" and sname == "json-pretty":
+        text = "\n".join("\t" * (len(ln) - len(ln.lstrip(" "))) + ln.lstrip(" ") for ln in text.split("\n"))
+    else:
+        tr = ""
+    sname_t = sname + tr
+    ctx.res.counts["transport:" + (tr or "plain")] += 1
     model = json.loads(json.dumps(doc))
     base = {"style": sname, "text": text, "model": model}
     # ---- hooked loader: position of EVERY scalar node
@@ -144,7 +158,7 @@ def check_doc(ctx, rng, doc, sname):
             if el > 10:
                 ctx.res.counts["positions_line_gt_10"] += 1
             if (nd["line"], nd["col"]) != (el, ec):
-                ctx.violation("position:loader:%s:%s" % (sname, kinds[nd["path"]]), "scalar %s starts at line %d col %d in the %s text, the loader records L:%d,C:%d" % (
+                ctx.violation("position:loader:%s:%s" % (sname_t, kinds[nd["path"]]), "scalar %s starts at line %d col %d in the %s text, the loader records L:%d,C:%d" % (
                     nd["path"], el, ec, sname, nd["line"], nd["col"]), dict(base, kind="load"))
                 return
     # ---- reports
@@ -218,7 +232,7 @@ def check_doc(ctx, rng, doc, sname):
             if mp in pos:
                 ctx.res.counts["message_positions_checked"] += 1
                 if (ml, mc) != pos[mp]:
-                    ctx.violation("position:message:%s" % sname, "message of rule %s places %s at L:%d,C:%d, the %s text has it at line %d col %d" % (
+                    ctx.violation("position:message:%s" % sname_t, "message of rule %s places %s at L:%d,C:%d, the %s text has it at line %d col %d" % (
                         rule, mp, ml, mc, sname, pos[mp][0], pos[mp][1]), case)
                     return
     missing = [k for k, v in info.items() if k not in seen_rules and v["kind"] in ("s", "u", "i")]
